@@ -12,11 +12,10 @@ are atomic under the hub lock).
 Proved for all logs, windows, positions, limits:
 * `stream_read_exact`          without a gap `Node.MapStreamRead` returns exactly the next changes after the
                                client's position, contiguously, up to the limit;
-* `stream_read_gap_detected`   a gap (changes after the position were trimmed / expired) is answered with
-                               unrecoverable-position, except in the two situations of `undetectedGap`;
-* `never_false_recovered_partial`  (full statement false, see the witnesses) a successful recovery read that
-                               stayed below the transition limit delivered *every* change after the client's
-                               position, provided the read was not an `undetectedGap`;
+* `stream_read_gap_detected`   every gap (changes after the position were trimmed / expired) is answered with
+                               unrecoverable-position (full strength since fix 5b9907a0);
+* `never_false_recovered`      a successful recovery read that stayed below the transition limit delivered
+                               *every* change after the client's position;
 * `page_entry_sound`, `page_entry_complete`  an entry a later state page shows with offset ≤ frozen offset is
                                the entry of the frozen snapshot and its key was not changed since; a key not
                                changed since the frozen offset is still shown with its frozen entry;
@@ -26,9 +25,8 @@ Proved for all logs, windows, positions, limits:
                                changes after the frozen offset in order (stream pages, live reply, pushes)
                                yields exactly the broker's current state - for every suffix, i.e. every
                                interleaving of publishes / removes / expirations with the page requests.
-Findings (decided witnesses): `c22_expired_witness` (C22-1, C22-2: stream TTL expiry, empty read, since < top:
-`Recovered = true`, nothing delivered), `c22_since_zero_witness` (C22-3, C22-4: position 0 and a trimmed stream:
-the detection is skipped).
+Former findings C22-1 … C22-4 (stream TTL expiry with an empty read; position 0 with a trimmed stream) were fixed in
+/repo by 5b9907a0; `c22_expired_now_detected` and `c22_since_zero_now_detected` show the fixed behaviour.
 Not proved: the composition of `handle` over whole sessions (control flow of the three phase handlers) is
 tied by trace validation only; pagination coverage is C21's theorem; ordered channels are not modelled.
 -/
@@ -54,8 +52,12 @@ theorem stream_read_exact (b : Broker) (since : Pos) (lim : Option Nat)
   by_cases htop : b.top = since.off
   · simp only [htop, if_true]
     have : after b since.off = [] := after_nil_of_ge b since.off (by omega)
-    simp [this, takeOpt]
-    cases lim <;> simp
+    have hpos : ¬ since.off < b.pos.off := by simp [Broker.pos, htop]
+    have ht : takeOpt lim ([] : List Pub) = [] := by cases lim <;> simp [takeOpt]
+    rw [this, ht]
+    by_cases hl0 : lim = some 0
+    · simp [hl0]
+    · simp [hl0, hpos]
   · simp only [htop, if_false]
     have hmax : max since.off b.lo = since.off := Nat.max_eq_left hlo
     have hf : b.pubs.filter (fun p => decide (p.off > max since.off b.lo)) = after b since.off := by
@@ -64,70 +66,92 @@ theorem stream_read_exact (b : Broker) (since : Pos) (lim : Option Nat)
       have := filter_pubsFrom 0 since.off b.log (Nat.zero_le _)
       simpa using this
     rw [hf]
-    cases hl : takeOpt lim (after b since.off) with
-    | nil => rfl
-    | cons p r =>
-      simp only
-      have hp : p.off = since.off + 1 := by
-        by_cases hlt : since.off < b.top
-        · obtain ⟨c, r0, ha⟩ := after_head b since.off hlt
-          cases lim with
-          | none => simp only [takeOpt] at hl; rw [ha] at hl; cases hl; rfl
-          | some n =>
-            simp only [takeOpt] at hl
-            obtain ⟨r', hr'⟩ := take_head_off _ _ _ _ hl
-            rw [ha] at hr'; cases hr'; rfl
-        · have : after b since.off = [] := after_nil_of_ge b since.off (by omega)
-          rw [this] at hl; cases lim <;> simp [takeOpt] at hl
-      have : ¬ (since.off > 0 ∧ p.off > since.off + 1) := by omega
-      simp [this]
+    by_cases hl0 : lim = some 0
+    · simp [hl0]
+    · simp only [hl0, if_false]
+      cases hl : takeOpt lim (after b since.off) with
+      | nil =>
+        simp only
+        -- an empty page with limit ≠ 0 means there is nothing after the position
+        have hge : b.top ≤ since.off := by
+          rcases Nat.lt_or_ge since.off b.top with hlt | hge
+          · obtain ⟨c, r0, ha⟩ := after_head b since.off hlt
+            rw [ha] at hl
+            cases lim with
+            | none => simp [takeOpt] at hl
+            | some n =>
+              cases n with
+              | zero => exact absurd rfl hl0
+              | succ m => simp [takeOpt] at hl
+          · exact hge
+        have : ¬ since.off < b.pos.off := by simp [Broker.pos]; omega
+        simp [this]
+      | cons p r =>
+        simp only
+        have hp : p.off = since.off + 1 := by
+          by_cases hlt : since.off < b.top
+          · obtain ⟨c, r0, ha⟩ := after_head b since.off hlt
+            cases lim with
+            | none => simp only [takeOpt] at hl; rw [ha] at hl; cases hl; rfl
+            | some n =>
+              simp only [takeOpt] at hl
+              obtain ⟨r', hr'⟩ := take_head_off _ _ _ _ hl
+              rw [ha] at hr'; cases hr'; rfl
+          · have : after b since.off = [] := after_nil_of_ge b since.off (by omega)
+            rw [this] at hl; cases lim <;> simp [takeOpt] at hl
+        have : ¬ (p.off > since.off + 1) := by omega
+        simp [this]
 
-/-- **A gap is detected** unless the stream is empty (expired / fully trimmed) or the position is 0. -/
+/-- **Every gap is detected** (full strength since fix 5b9907a0): if changes after the client's position
+were trimmed or expired, the read answers unrecoverable-position - also when the stream is empty and when
+the position is 0. -/
 theorem stream_read_gap_detected (b : Broker) (since : Pos) (lim : Option Nat)
-    (hgap : since.off < b.lo) (hnot : ¬ undetectedGap b since) (hinv : b.lo ≤ b.top)
-    (hlim : lim ≠ some 0) : nodeStreamRead b since lim = none := by
-  have h0 : since.off ≠ 0 := fun h => hnot ⟨hgap, Or.inr h⟩
-  have hlt : b.lo < b.top := by
-    rcases Nat.lt_or_ge b.lo b.top with h | h
-    · exact h
-    · exact absurd ⟨hgap, Or.inl (Nat.le_antisymm hinv h)⟩ hnot
+    (hgap : since.off < b.lo) (hinv : b.lo ≤ b.top) (hlim : lim ≠ some 0) :
+    nodeStreamRead b since lim = none := by
   unfold nodeStreamRead readStream
   by_cases hcond : since.ep ≠ 0 ∧ since.ep ≠ b.epoch
   · simp [hcond]
   · simp only [hcond, if_false]
     have htop : ¬ b.top = since.off := by omega
-    simp only [htop, if_false]
+    simp only [htop, if_false, hlim]
     have hmax : max since.off b.lo = b.lo := Nat.max_eq_right (Nat.le_of_lt hgap)
     have hf : b.pubs.filter (fun p => decide (p.off > max since.off b.lo)) = after b b.lo := by
       rw [hmax]
       unfold Broker.pubs after
       simpa using filter_pubsFrom 0 b.lo b.log (Nat.zero_le _)
     rw [hf]
-    obtain ⟨c, r0, ha⟩ := after_head b b.lo hlt
-    rw [ha]
-    cases lim with
-    | none =>
-      simp only [takeOpt]
-      have : since.off > 0 ∧ b.lo + 1 > since.off + 1 := by omega
-      simp [this]
-    | some n =>
-      cases n with
-      | zero => exact absurd rfl hlim
-      | succ m =>
-        simp only [takeOpt, List.take_succ_cons]
-        have : since.off > 0 ∧ b.lo + 1 > since.off + 1 := by omega
+    rcases Nat.lt_or_ge b.lo b.top with hlt | hge
+    · obtain ⟨c, r0, ha⟩ := after_head b b.lo hlt
+      rw [ha]
+      cases lim with
+      | none =>
+        simp only [takeOpt]
+        have : b.lo + 1 > since.off + 1 := by omega
         simp [this]
+      | some n =>
+        cases n with
+        | zero => exact absurd rfl hlim
+        | succ m =>
+          simp only [takeOpt, List.take_succ_cons]
+          have : b.lo + 1 > since.off + 1 := by omega
+          simp [this]
+    · have : after b b.lo = [] := after_nil_of_ge b b.lo hge
+      rw [this]
+      have ht : takeOpt lim ([] : List Pub) = [] := by cases lim <;> simp [takeOpt]
+      rw [ht]
+      have : since.off < b.pos.off := by simp [Broker.pos]; omega
+      simp [this]
 
-/-- **never_false_recovered (partial).**  Full statement: "`Recovered = true` ⇒ every change after the
-client's position was delivered".  The recovery transition reads the stream since the client's position
-with limit `L+1` and answers success only if at most `L` publications came back.  Proved: if that read is
-not an `undetectedGap`, the publications it returned are *all* changes after the position. -/
-theorem never_false_recovered_partial (b : Broker) (since : Pos) (L : Nat) (pubs : List Pub) (pos : Pos)
-    (hep : since.ep = 0 ∨ since.ep = b.epoch) (hinv : b.lo ≤ b.top) (hnot : ¬ undetectedGap b since)
+/-- **never_false_recovered.**  The recovery transition reads the stream since the client's position with
+limit `L+1` and answers success (`Recovered = true`) only if at most `L` publications came back.  Then the
+publications it returned are *all* changes after the client's position - for every log and every stream
+window, i.e. every interleaving of publishes, removes, key expirations, trimming and stream expiry. -/
+theorem never_false_recovered (b : Broker) (since : Pos) (L : Nat) (pubs : List Pub) (pos : Pos)
+    (hep : since.ep = 0 ∨ since.ep = b.epoch) (hinv : b.lo ≤ b.top)
     (hread : nodeStreamRead b since (some (L + 1)) = some (pubs, pos)) (hlen : pubs.length ≤ L) :
     pubs = after b since.off ∧ pos = b.pos := by
   by_cases hgap : since.off < b.lo
-  · rw [stream_read_gap_detected b since _ hgap hnot hinv (by simp)] at hread
+  · rw [stream_read_gap_detected b since _ hgap hinv (by simp)] at hread
     cases hread
   · rw [stream_read_exact b since _ hep (Nat.le_of_not_lt hgap)] at hread
     simp only [takeOpt, Option.some.injEq, Prod.mk.injEq] at hread
@@ -141,7 +165,8 @@ theorem never_false_recovered_partial (b : Broker) (since : Pos) (L : Nat) (pubs
         rw [List.length_take]; omega
       rw [h1] at this; omega
 
-example : ¬ undetectedGap { log := [⟨"a", some 1⟩, ⟨"b", some 2⟩], lo := 0, st := [] } ⟨1, 1⟩ := by decide
+example : nodeStreamRead { log := [⟨"a", some 1⟩, ⟨"b", some 2⟩], lo := 0, st := [] } ⟨1, 1⟩ (some 3)
+    = some ([⟨2, "b", some 2⟩], ⟨2, 1⟩) := by decide
 
 /-! ### state pages against the frozen snapshot -/
 
@@ -188,27 +213,26 @@ example : ∀ k, ¬ touched k [⟨"b", none⟩] →
   · subst ha; decide
   · simp [vals, snapshot, semL, updO, ha, hb]
 
-/-! ### findings: the two holes of the trim detection -/
+/-! ### the two former holes of the trim detection (findings C22-1..4, fixed by 5b9907a0) -/
 
 def expiredBroker : Broker :=
   ((({} : Broker).apply (.publish "a" 1)).apply (.publish "b" 2) |>.apply (.publish "c" 3)).apply .expireStream
 
-/-- C22-1: after stream TTL expiry a recovery from offset 2 (< top = 3) reads nothing, no error: the
-transition answers `Recovered = true` with no publication although change 3 was never delivered. -/
-theorem c22_expired_witness :
-    nodeStreamRead expiredBroker ⟨2, 1⟩ (some 1001) = some ([], ⟨3, 1⟩) ∧
+/-- formerly C22-1/C22-2: after stream TTL expiry a recovery from offset 2 (< top = 3) read nothing without
+error and the transition answered `Recovered = true`; now the read is unrecoverable-position (error 112). -/
+theorem c22_expired_now_detected :
+    nodeStreamRead expiredBroker ⟨2, 1⟩ (some 1001) = none ∧
     after expiredBroker 2 = [⟨3, "c", some 3⟩] ∧
     transition {} ⟨2, 1⟩ true true [] (nodeStreamRead expiredBroker ⟨2, 1⟩ (some 1001)) [] =
-      .reply (.live 3 1 true [] []) none (some ⟨3, 1⟩) := by
+      .reply (.err 112) none none := by
   decide
 
 def trimmedBroker : Broker :=
   (((({} : Broker).apply (.publish "a" 1)).apply (.publish "b" 2)).apply (.publish "c" 3)).apply (.trimTo 1)
 
-/-- C22-3: with position 0 the detection is skipped: the read silently starts at offset 2. -/
-theorem c22_since_zero_witness :
-    nodeStreamRead trimmedBroker ⟨0, 1⟩ (some 1001) = some ([⟨2, "b", some 2⟩, ⟨3, "c", some 3⟩], ⟨3, 1⟩) ∧
-    (after trimmedBroker 0).length = 3 := by
+/-- formerly C22-3/C22-4: with position 0 the detection was skipped; now detected. -/
+theorem c22_since_zero_now_detected :
+    nodeStreamRead trimmedBroker ⟨0, 1⟩ (some 1001) = none ∧ (after trimmedBroker 0).length = 3 := by
   decide
 
 end CentrifugeVerif.MapSub
